@@ -343,6 +343,11 @@ func MapOrder(site, n int) []int {
 	return p
 }
 
+// StepNo is the global step counter (for ordering detections across tasks).
+//
+//go:norace
+func StepNo() int { return steps }
+
 // SoloTask prepares the hooks' per-task state for the sequential control run
 // of one task: same task number, counter reset.
 //
